@@ -4,7 +4,7 @@ import json, os, subprocess, sys, time
 name, props = sys.argv[1], sys.argv[2:]
 dst = os.path.join("/verif/seeded", name)
 def sh(cmd, cwd=None, timeout=1800):
-    p = subprocess.run(cmd, shell=True, cwd=cwd, stdout=subprocess.PIPE, stderr=subprocess.STDOUT, text=True, timeout=timeout)
+    p = subprocess.run(cmd, shell=True, cwd=cwd, stdout=subprocess.PIPE, stderr=subprocess.STDOUT, text=True, errors="replace", timeout=timeout)
     return p.returncode, p.stdout
 rc, o = sh("git -C /repo status --porcelain")
 if o.strip():
